@@ -676,7 +676,7 @@ VARIANTS = [
 
 META = {
     "design_ref": "DESIGN.md section 3, C06",
-    "technique": "def-use / version check of the parallel dispatch, shape analysis of the schedule sort key, typed taint of str-set iteration order into order-observing sinks with a checked sanitiser; injectivity of sort keys over sets of str tuples (sanitiser withdrawn in the sixth wave: order must be fixed where the lines are made); adopted state rules of C05 (R5.6, R5.8)",
+    "technique": "def-use / version check of the parallel dispatch, shape analysis of the schedule sort key, typed taint of str-set iteration order into order-observing sinks with a checked sanitiser; injectivity of sort keys over sets of str tuples and over the entries of dicts filled in set order (sanitiser withdrawn in the sixth wave: order must be fixed where the lines are made); adopted state rules of C05 (R5.6, R5.8)",
     "level_text": ("Decides on the current source that parallel dispatch pairs results with inputs in a fixed sorted order, "
                    "that the rewrite schedule is totally ordered independently of yield order, and that the iteration order "
                    "of no statically recognisable set of str reaches a join, a positional choice, an ordered accumulation "
